@@ -1481,8 +1481,17 @@ func TestVerifC40(t *testing.T) {
 	if nHls < 3 {
 		nHls = 3
 	}
+	notForced := 0
 	for i := 0; i < nHls; i++ {
 		coq, desc, class := vC40HlsCaseRun(r)
+		if strings.HasPrefix(class, "NOT-FORCED:") { // not judged; tried again, at most twice per run
+			notForced++
+			out.extra["hls_schedules_not_forced"] = notForced
+			if notForced <= 2 {
+				i--
+			}
+			continue
+		}
 		out.Case(coq, desc, class, true)
 		if strings.HasPrefix(class, "STUCK:") {
 			break
